@@ -36,7 +36,8 @@ def build(rng, cands, k=1, n_each=100, tagged=None, dialect=None, opts=None, int
         n = n_each if isinstance(n_each, int) else rng.randint(*n_each)
         sims.append(history.generate(rng, cands, n, o))
     side = [(sides[i] if sides else rng.choice(['client', 'client', 'server'])) for i in range(k)]
-    queue = [rng.choice([None, 'Default Queue', 'Display Queue']) if dialect['new'] else None for i in range(k)]
+    queue = [rng.choice([None, 'Default Queue', 'Display Queue', 'Default Queue', 'mesa egl surface queue', 'wl-egl surface queue', 'Qt.EventQueue',
+                        'gdk: frame clock', 'main (client #2)', 'q{x', '<7>', '', 'Ünï']) if dialect['new'] else None for i in range(k)]
     # interleave preserving per-connection order; the stream's clock must be non-decreasing: merge by time, and among
     # equal/any choose by strategy - times are re-stamped so the stream is non-decreasing whatever the interleaving
     pos = [0] * k
@@ -155,3 +156,22 @@ def shifted_lines(st, shift_us, dialect=None):
         rec['t_us'] = e['rec']['t_us'] + shift_us
         out.append(history.render(rec, e['side'], d, e['tag'], e['queue'] if d['new'] else None))
     return out
+
+
+def app_id_of(rec):
+    """the app id a message gives its connection (set_app_id with a non-empty string), else None"""
+    if rec['name'] == 'set_app_id' and rec['args'] and rec['args'][0]['k'] == 's' and rec['args'][0]['v']:
+        return rec['args'][0]['v']
+    return None
+
+
+def select_connection(arg, opened, app_ids):
+    """`connection ARG`: a connection's name wins over another connection's app id; -> name or None (no such connection)"""
+    for n in opened:
+        if n.lower() == arg.lower():
+            return n
+    for n in opened:
+        a = app_ids.get(n)
+        if a is not None and a.lower() == arg.lower():
+            return n
+    return None
